@@ -18,6 +18,8 @@ source on disk is never touched; node positions are kept, so reports still point
      (``kw_to_pos``, needs the other modules' signatures and is therefore run by the loader after indexing);
   4. local closures used as plain helpers (``def reg(a, b): ...`` at the top of a function body, only ever called,
      after its definition, from the function's own scope) are inlined like private helpers (``Inliner._local_helpers``);
+  6. ``for t in self._gen(a): BODY`` over a private generator that is one loop ending in its only ``yield`` becomes that
+     loop with ``t = <yielded>; BODY`` in place of the yield (``Inliner._expand_gen_loop``);
   5. loops over a short literal tuple / list of *variables* (``for src in (self.resources, overrides): d.update(src)``)
      are unrolled (``Unroll``); loops over constants (slot-name tables) keep their shape.
 
@@ -608,6 +610,81 @@ def collect_context_managers(tree, anchors):
     return mod, cls
 
 
+# ---------------------------------------------------------------------------------------------- generators consumed by a for loop
+_GEN_BODY = '__vt_gen_body__'
+
+
+def _gen_shape(fn):
+    """A generator whose body is straight-line statements followed by one ``for`` loop (no ``else``) that ends, at the
+    top level of its body, in the function's only ``yield`` -- and nothing behind the loop, no ``return``:
+    -> (the loop, whether the loop body can ``break``).  None for any other shape."""
+    body = list(fn.body)
+    if body and isinstance(body[0], ast.Expr) and isinstance(body[0].value, ast.Constant) and isinstance(body[0].value.value, str):
+        body = body[1:]
+    ys = [n for n in ast.walk(fn) if isinstance(n, (ast.Yield, ast.YieldFrom))]
+    if len(ys) != 1 or not isinstance(ys[0], ast.Yield) or not body or _contains_return(body):
+        return None
+    loop = body[-1]
+    if not isinstance(loop, ast.For) or loop.orelse or not loop.body:
+        return None
+    last = loop.body[-1]
+    if not (isinstance(last, ast.Expr) and last.value is ys[0]):
+        return None
+    brk = _contains(loop.body, ast.Break, stop=(ast.FunctionDef, ast.AsyncFunctionDef, ast.ClassDef, ast.Lambda, ast.For, ast.While))
+    return loop, brk
+
+
+def _eligible_gen(fn, anchors):
+    if not isinstance(fn, ast.FunctionDef) or fn.name in anchors or not fn.name.startswith('_') or fn.name.startswith('__'):
+        return None
+    if any(not (isinstance(d, ast.Name) and d.id == 'staticmethod') for d in fn.decorator_list):
+        return None
+    shape = _gen_shape(fn)
+    if shape is None:
+        return None
+    # everything else as for a plain helper: judged on a copy in which the yield is an ordinary statement
+    fake = copy.deepcopy(fn)
+    loop = [b for b in fake.body if isinstance(b, ast.For)][-1]
+    st = loop.body[-1]
+    v = st.value.value
+    loop.body[-1] = ast.copy_location(ast.Expr(value=ast.Tuple(elts=[ast.Name(id=_GEN_BODY, ctx=ast.Load())] + ([v] if v is not None else []),
+                                                                 ctx=ast.Load())), st)
+    kind = _eligible_def(fake)
+    if kind is None:
+        return None
+    return kind, fake, shape[1]
+
+
+def collect_generators(tree, anchors):
+    mod, cls = {}, {}
+    counts = {}
+    for st in tree.body:
+        if isinstance(st, ast.ClassDef):
+            for m in st.body:
+                if isinstance(m, ast.FunctionDef):
+                    counts[m.name] = counts.get(m.name, 0) + 1
+    for st in tree.body:
+        if isinstance(st, ast.FunctionDef):
+            r = _eligible_gen(st, anchors)
+            if r is not None and r[0] == 'func':
+                h = Helper(r[1], 'func')
+                h.brk, h.orig = r[2], st
+                mod[st.name] = h
+        elif isinstance(st, ast.ClassDef):
+            for m in st.body:
+                r = _eligible_gen(m, anchors) if isinstance(m, ast.FunctionDef) else None
+                if r is not None and counts.get(m.name) == 1:
+                    h = Helper(r[1], 'method' if r[0] == 'func' else r[0], st.name)
+                    h.brk, h.orig = r[2], m
+                    cls[(st.name, m.name)] = h
+    for st in ast.walk(tree):
+        if isinstance(st, ast.Assign):
+            for t in st.targets:
+                if isinstance(t, ast.Name):
+                    mod.pop(t.id, None)
+    return mod, cls
+
+
 # ---------------------------------------------------------------------------------------------- private classes used as records
 def _self_fields_assigned(stmts):
     """Fields ``self.f`` assigned on every path through this statement list that completes normally."""
@@ -719,6 +796,7 @@ class Inliner(object):
         # foreign(name) -> True when another module of the analysed tree mentions ``name`` (None: unknown, assume it does)
         self.foreign = foreign
         self.cm_mod, self.cm_cls = collect_context_managers(tree, anchors)
+        self.gen_mod, self.gen_cls = collect_generators(tree, anchors)
         self.obj_classes = collect_object_classes(tree, anchors) if foreign is not None else {}
         self.used = set()           # ids of helper definitions expanded at least once
         self.shared_names = set()   # locals standing for the fields of a dissolved object: never renamed
@@ -1054,6 +1132,66 @@ class Inliner(object):
         self.used.add(id(h.orig))
         return pre + body
 
+    # -- ``for T in gen(..): BODY`` for a generator of this module that is one loop ending in its only yield -----
+    def _gen_of(self, call, cls_name):
+        f = call.func
+        if any(isinstance(a, ast.Starred) for a in call.args) or any(k.arg is None for k in call.keywords):
+            return None, None
+        if isinstance(f, ast.Name) and f.id in self.gen_mod and f.id not in self.shadowed:
+            return self.gen_mod[f.id], None
+        if isinstance(f, ast.Attribute) and isinstance(f.value, ast.Name) and f.value.id in ('self', 'cls') and cls_name is not None:
+            h = self._inherited_helper(cls_name, f.attr, self.gen_cls)
+            if h is not None:
+                return h, f.value
+        return None, None
+
+    def _expand_gen_loop(self, s, cls_name, caller_names):
+        """``for T in _gen(a): BODY`` where ``_gen`` is ``<pre>; for x in IT: <work>; yield v`` (see _gen_shape) is
+        ``<pre>; for x in IT: <work>; T = v; BODY``.  The generator runs ``<pre>`` and the first ``<work>`` when the
+        consuming loop asks for the first item, i.e. where the ``for`` statement stands; after BODY (also after its
+        ``continue``) it resumes behind the yield, which is the end of the loop body, so the next ``<work>`` follows; a
+        ``break`` / ``return`` / exception in BODY abandons the generator at the yield, where nothing is pending (the yield
+        is not inside a ``try`` / ``with``).  The generator's locals are its own (renamed apart); its arguments are
+        evaluated once, so they must be constants or names the consuming loop does not re-bind.  A consuming ``else:``
+        clause runs when the generator is exhausted = when its loop is, provided that loop has no ``break``."""
+        if not isinstance(s.iter, ast.Call):
+            return None
+        h, recv = self._gen_of(s.iter, cls_name)
+        if h is None:
+            return None
+        tgt = s.target
+        if not (isinstance(tgt, ast.Name) or (isinstance(tgt, (ast.Tuple, ast.List)) and all(isinstance(e, ast.Name) for e in tgt.elts))):
+            return None
+        if s.orelse and h.brk:
+            raise CannotInline('consuming loop has an else clause and the generator loop can break')
+        rebound = _stored_names([s])
+        for a in list(s.iter.args) + [k.value for k in s.iter.keywords]:
+            if not (isinstance(a, ast.Constant) or (isinstance(a, ast.Name) and a.id not in rebound)):
+                raise CannotInline('generator argument is not a name the consuming loop leaves alone')
+        if recv is not None and recv.id in rebound:
+            raise CannotInline('receiver re-bound in the consuming loop')
+        pre, body = self._bind(h, s.iter, recv, caller_names, None)
+        loop = body[-1]
+        mark = loop.body[-1]
+        if not (isinstance(loop, ast.For) and isinstance(mark, ast.Expr) and isinstance(mark.value, ast.Tuple) and mark.value.elts and
+                isinstance(mark.value.elts[0], ast.Name) and mark.value.elts[0].id == _GEN_BODY):
+            raise CannotInline('yield position lost')
+        v = mark.value.elts[1] if len(mark.value.elts) > 1 else ast.copy_location(ast.Constant(value=None), mark)
+        tnames = set(n.id for n in ast.walk(tgt) if isinstance(n, ast.Name))
+        if tnames & (_stored_names(body) | _stored_names(pre)):
+            raise CannotInline('generator local shares a name with the loop target')
+        assigns = None
+        if isinstance(tgt, (ast.Tuple, ast.List)) and isinstance(v, ast.Tuple) and len(v.elts) == len(tgt.elts) and \
+                not any(isinstance(e, ast.Starred) for e in v.elts):
+            vnames = set(n.id for e in v.elts for n in ast.walk(e) if isinstance(n, ast.Name))
+            if not (tnames & vnames):
+                assigns = [ast.copy_location(ast.Assign(targets=[ast.Name(id=t.id, ctx=ast.Store())], value=e), s) for t, e in zip(tgt.elts, v.elts)]
+        if assigns is None:
+            assigns = [ast.copy_location(ast.Assign(targets=[copy.deepcopy(tgt)], value=v), s)]
+        new = ast.For(target=loop.target, iter=loop.iter, body=loop.body[:-1] + assigns + list(s.body), orelse=list(s.orelse), type_comment=None)
+        self.used.add(id(h.orig))
+        return pre + body[:-1] + [ast.copy_location(new, s)]
+
     # -- objects of private record classes that never leave the function creating them --------------------
     def _dissolve_objects(self, fn):
         """``v = _C(a); v.m(x); return v.f`` with ``_C`` a class admitted by collect_object_classes and ``v`` used only as
@@ -1222,6 +1360,10 @@ class Inliner(object):
         try:
             if isinstance(s, ast.With):
                 rep = self._expand_with(s, cls_name, caller_names)
+                if rep is not None:
+                    return rep
+            if isinstance(s, ast.For):
+                rep = self._expand_gen_loop(s, cls_name, caller_names)
                 if rep is not None:
                     return rep
             if isinstance(s, ast.Return) and isinstance(s.value, ast.Call):
@@ -1550,6 +1692,8 @@ def normalize_tree(tree, foreign=None):
     n += normalize2.unroll_tables(tree)
     inl = Inliner(tree, anchor_names(), foreign)
     n_inl = inl.run()
+    if normalize2.devirtualize_calls(tree):
+        n_inl += inl.run()      # the calls through a function-valued local now name their helpers
     n += n_inl
     if n_inl:
         n += normalize2.forward_lazy_temps(tree)
